@@ -1254,6 +1254,9 @@ func fieldOf(v ssa.Value) *types.Var {
 // FieldUses enumerates every use of field fld in the module.
 func (p *Prog) FieldUses(fld *types.Var) []FieldUse {
 	var out []FieldUse
+	if fld == nil {
+		return nil // an unresolved field anchor has no uses (the rule's instance minimum reports it)
+	}
 	for _, fn := range p.Funcs() {
 		allInstrs(fn, func(in ssa.Instruction) {
 			v, ok := in.(ssa.Value)
